@@ -18,6 +18,83 @@ def run(rep, prog, tier):
     r1(rep, prog)
     r2(rep, prog)
     r34(rep, prog)
+    r5(rep, prog, "C04-R5")
+
+
+def r5(rep, prog, R):
+    """automatic merges: candidates computed from the *committed* segments get the committed
+    opstamp (load_meta().opstamp) as merge target, so a merge of committed segments never applies
+    deletes that are not committed yet; candidates from the uncommitted segments get a fresh stamp"""
+    rep.rule(R, "merge target opstamps: in consider_merge_options the MergeOperations built for candidates of the committed segments carry load_meta().opstamp, those for the uncommitted segments a fresh Stamper::stamp(); make_merge_operation (explicit merges) uses load_meta().opstamp")
+    fid = SU + "SegmentUpdater::consider_merge_options"
+    body = get_body(rep, prog, R, fid)
+    if body is None:
+        return
+    gm = calls_to(prog, body, {SU + "SegmentUpdater::get_mergeable_segments"})
+    if not rep.check(len(gm) == 1, R, "consider_merge_options lists the mergeable segments once", "1 call to get_mergeable_segments", "cannot establish: get_mergeable_segments call not found", site=body.span):
+        return
+    gdest = place_local(gm[0][1]["dest"])
+    CMC = set(prog.method_family("tantivy::indexer::merge_policy::MergePolicy::compute_merge_candidates"))
+    MAP = prog.names(r"Iterator::map$")
+    DEREF = tuple(prog.names(r"Deref::deref$"))
+    pairs = []
+    for b, t in body.calls():
+        if not (prog.call_targets(t) & MAP):
+            continue
+        cdef = trace_back(body, op_local(t["args"][1])) if op_local(t["args"][1]) is not None else []
+        if not (cdef and cdef[-1][0] == "agg" and "{closure" in str(cdef[-1][1])):
+            continue
+        cb = prog.body(cdef[-1][1])
+        if cb is None or not any(ct.get("f", "").endswith("MergeOperation::new") for _, ct in cb.calls()):
+            continue
+        which = None
+        cm = [s_ for s_ in trace_through(body, op_local(t["args"][0]), transparent=tuple(prog.names(r"IntoIterator::into_iter$"))) if s_[0] == "call" and s_[1] in CMC]
+        if cm:
+            ct = body.term(cm[0][2])
+            cur = op_local(ct["args"][1])
+            for _ in range(10):
+                ds = body.defs().get(cur, [])
+                if len(ds) != 1:
+                    break
+                d = ds[0]
+                if d[0] == "call":
+                    if d[2].get("f", "").endswith("Deref::deref"):
+                        cur = op_local(d[2]["args"][0])
+                        continue
+                    break
+                st = d[3]
+                q = st.get("p") if st.get("r") in ("ref", "rawptr") else (op_place(st["o"][0]) if st.get("r") in ("use", "cast") and st.get("o") else None)
+                if q is None:
+                    break
+                if place_local(q) == gdest:
+                    fs = proj_fields(q)
+                    which = {0: "committed", 1: "uncommitted"}.get(fs[0][0]) if fs else None
+                    break
+                cur = place_local(q)
+        agg_st = body.stmts(cdef[-1][2])[cdef[-1][3]]
+        srcs = set()
+        for o in agg_st["o"]:
+            if op_local(o) is None:
+                continue
+            tr = trace_through(body, op_local(o), transparent=DEREF)
+            if any(x[0] == "call" and x[1].endswith("Stamper::stamp") for x in tr):
+                srcs.add("stamp")
+            if any(x[0] == "call" and x[1] == SU + "SegmentUpdater::load_meta" for x in tr) and any(x[0] == "field" and x[2] == "opstamp" for x in tr):
+                srcs.add("committed-opstamp")
+        pairs.append((b, which, srcs))
+    rep.floor(R, "merge-operation builders in consider_merge_options", len(pairs), 2)
+    for b, which, srcs in pairs:
+        want = {"committed": {"committed-opstamp"}, "uncommitted": {"stamp"}}.get(which)
+        rep.check(which is not None and srcs == want, R, "merge candidates of the %s segments get %s" % (which or "?", "the committed opstamp" if which == "committed" else "a fresh opstamp"),
+                  "MergeOperation::new(.., %s, ..)" % sorted(srcs),
+                  "in consider_merge_options the merge operations for the %s segments carry the opstamp source %s (expected %s): a background merge of committed segments would apply deletes that are not "
+                  "committed yet - they become visible without a commit and survive a rollback" % (which or "unidentified", sorted(srcs), sorted(want) if want else "?"), site=site(body, b))
+    mb = get_body(rep, prog, R, SU + "SegmentUpdater::make_merge_operation")
+    if mb is not None:
+        for b, t in calls_to(prog, mb, {I + "merge_operation::MergeOperation::new"}):
+            tr = trace_through(mb, op_local(t["args"][1]), transparent=DEREF)
+            rep.check(any(x[0] == "call" and x[1] == SU + "SegmentUpdater::load_meta" for x in tr) and any(x[0] == "field" and x[2] == "opstamp" for x in tr), R,
+                      "explicit merges target the committed opstamp", "MergeOperation::new(.., load_meta().opstamp, ..)", "make_merge_operation does not use the committed opstamp", site=site(mb, b))
 
 
 def r1(rep, prog):
